@@ -642,6 +642,10 @@ def _ref_stmt(st, env, prog):
             if a.internal != b.internal:
                 raise RefUndefined("internal shapes differ")
             la, lb = a.labels[name], b.labels[name]
+            if (la is None) != (lb is None):
+                # one side has no coordinate for the dimension (or an undocumented one): xarray refuses
+                # to concatenate a coordinate-less dimension with a labelled one; nothing is documented
+                raise RefUndefined("coordinate on one side only")
             labels = dict(a.labels)
             labels[name] = None if (la is None or lb is None or st["match"]) else la + lb
             return Ref(a.dims, labels, np.concatenate([a.data, bd], axis=a.ax(name)))
@@ -733,7 +737,7 @@ def run_ref(prog, real=None):
     return env
 
 
-def oracle_stmt(prog, k, real, ref, interp):
+def oracle_stmt(prog, k, real, ref, interp, scale=1.0):
     """Compare the real action of statement k with the NumPy reference. Returns None or (kind, text)."""
     st = prog["stmts"][k]
     if ref is None:
@@ -768,24 +772,53 @@ def oracle_stmt(prog, k, real, ref, interp):
         try:
             same = bool(np.all(got == want))
             if not same and any(isinstance(x, float) for x in got.flat):
-                same = np.allclose(got.astype(float), want.astype(float), rtol=1e-9, atol=1e-9, equal_nan=True)
+                same = _allclose(got, want, scale)
         except Exception:
             same = False
     else:
-        same = np.allclose(got.astype(float), want.astype(float), rtol=1e-9, atol=1e-9, equal_nan=True)
+        same = _allclose(got, want, scale)
     if not same:
-        bad = next((idx for idx in np.ndindex(*got.shape) if not _close(got[idx], want[idx])), None)
+        bad = next((idx for idx in np.ndindex(*got.shape) if not _close(got[idx], want[idx], scale)), None)
         return ("value", f"statement {k} {st}: value at {bad} is {got[bad] if bad is not None else '?'}, NumPy gives {want[bad] if bad is not None else '?'}")
     return None
 
 
-def _close(x, y):
+FLOAT_RTOL = 1e-7
+FLOAT_ATOL = 1e-6   # float mode exists only for std: sqrt turns an eps*x^2 cancellation error of the rewrite into 1e-8*|x|
+
+
+def _close(x, y, scale=1.0):
     try:
         if x == y:
             return True
-        return abs(float(x) - float(y)) <= 1e-9 + 1e-9 * abs(float(y))
+        fx, fy = float(x), float(y)
+        if fx != fx:     # nan: sqrt of a slightly negative difference where the true variance is ~0 (float rounding, out of scope)
+            return fy != fy or abs(fy) <= 1e-4 * scale
+        return abs(fx - fy) <= FLOAT_ATOL * scale + FLOAT_RTOL * abs(fy)
     except Exception:
         return False
+
+
+def _allclose(got, want, scale=1.0):
+    g = got.astype(float)
+    w = want.astype(float)
+    ok = np.isclose(g, w, rtol=FLOAT_RTOL, atol=FLOAT_ATOL * scale, equal_nan=True) | (np.isnan(g) & (np.abs(w) <= 1e-4 * scale))
+    return bool(np.all(ok))
+
+
+def float_scale(prog, k, refs):
+    """magnitude of the operands of statement k (1 for exact programs): float tolerances are relative to it"""
+    if not prog.get("float"):
+        return 1.0
+    m = 1.0
+    for o in operands(prog["stmts"][k]):
+        r = refs[o]
+        if r is not None and r.data.size:
+            try:
+                m = max(m, float(np.max(np.abs(r.data.astype(float)))))
+            except Exception:
+                pass
+    return m
 
 
 # ----------------------------------------------------------------------------- generator (adaptive: looks at the real results so far)
